@@ -17,7 +17,7 @@ func init() {
 			"D4 batch quantiles store the single-query result for the same element. "+
 			"D5 the iteration contract of every store the sketch iterates through (the C04-D3 obligations re-evaluated: each bin reported once with its weight, the callback's stop verdict honoured immediately, channels closed). "+
 			"D6 coherence of the exact variant (the C10-D1 wrapper table re-evaluated as C12-D6) — every state-changing wrapper updates the inner sketch and the statistics together and only on success: Add / AddWithCount (nothing for weight 0, nothing when the inner add fails), MergeWith (the statistics merge only after the inner merge succeeded), Clear, Reweight, ChangeMapping; Copy returns {inner.Copy(), statistics.Copy()} (a shared statistics object would let a later operation on either sketch change the other's count, extremes and sum). "+
-			"SHARED (obligations of other properties that decide clauses this property states too, re-evaluated here under their home rule ids): C06-D3 sketch-state writes (decoders only accumulate, so the count stays the absorbed weight when decoding into a non-empty sketch). C10-D3 as C12-D7 (field tables of the statistics object: Copy, Clear, Reweight, Rescale, MergeWith, Add); C10-D6 as C12-D9 (the exact variant's accessors: count, sum and extremes from the statistics — (NaN, error) exactly when empty —, zero weight, stores and iteration from the inner sketch; the constructor from parts refuses exactly the disagreeing parts); C05-D9 as C12-D8 (named constructors give both sides the announced store kind). C02-D1 (the sketch merge adds the zero weight and merges both sides on every accepting path) and C02-D3 (the store merges add every bin of an argument of any store kind). C04-D2/D4/D8 (the read side of every store: total, emptiness, extreme indexes — what the sketch's count, emptiness and extremes are computed from). C16-D1 (Reweight scales the zero weight and both sides: the count stays the absorbed weight). C10-D1/D5 (statistics blocks of the exact variant: written only when they hold a real value, read back into the accumulator of their flag; final guard). "+
+			"SHARED (obligations of other properties that decide clauses this property states too, re-evaluated here under their home rule ids): C06-D3 sketch-state writes (decoders only accumulate, so the count stays the absorbed weight when decoding into a non-empty sketch). C10-D3 as C12-D7 (field tables of the statistics object: Copy, Clear, Reweight, Rescale, MergeWith, Add); C10-D6 as C12-D9 (the exact variant's accessors: count, sum and extremes from the statistics — (NaN, error) exactly when empty —, zero weight, stores and iteration from the inner sketch; the constructor from parts refuses exactly the disagreeing parts); C05-D9 as C12-D8 (named constructors give both sides the announced store kind). C02-D1 (the sketch merge adds the zero weight and merges both sides on every accepting path) and C02-D3 (the store merges add every bin of an argument of any store kind). C04-D2/D4/D8 (the read side of every store: total, emptiness, extreme indexes — what the sketch's count, emptiness and extremes are computed from). C17-D1/D3 (ChangeMapping: identity shortcut only for factor 1 and an equal mapping; every overlapping target bin receives its share). C16-D1 (Reweight scales the zero weight and both sides: the count stays the absorbed weight). C10-D1/D5 (statistics blocks of the exact variant: written only when they hold a real value, read back into the accumulator of their flag; final guard). "+
 			"NOT DECIDED: 'within alpha of the true extremes', monotonicity in q, accuracy of the approximate sum (numeric).",
 		"one obligation per path of the extreme/emptiness tables, per iteration clause; non-trivial = a path evaluation was needed",
 		true, runC12)
@@ -57,6 +57,9 @@ func runC12(c *Ctx) {
 	// count, emptiness and extremes of the sketch are those of its stores: totals, emptiness, extreme indexes of every
 	// store kind (the read side of the stores)
 	c.shared(func() { c04Readers(c) }, func(o *Obligation) bool { return true })
+	// … across a change of mapping or unit (identity shortcut only for factor 1 and an equal mapping; every overlapping
+	// target bin receives its share)
+	c.shared(func() { c17Table(c, a); c17Overlap(c, a) }, func(o *Obligation) bool { return true })
 	// … and across a reweighting: zero weight and both sides scale together
 	c.shared(func() { c16Sketch(c, a, "C16-D1") }, func(o *Obligation) bool { return true })
 	// coherence across an encode/decode history of the exact variant: the statistics blocks are written only when they
